@@ -42,8 +42,8 @@ def fn_doc(rng):
             words = [rng.choice(gen.WORDS) for _ in range(rng.randint(1, 4))]
             for _ in range(rng.randint(0, 3)):
                 words.insert(rng.randint(0, len(words)), ref())
-            pre = rng.choice(["", "", "> ", "- ", "1. ", "# ", "*emph ", "> - "])
-            lines.append(pre + " ".join(words) + ("*" if pre == "*emph " else ""))
+            pre = rng.choice(["", "", "> ", "- ", "1. ", "# ", "*emph ", "> - ", "![alt "])
+            lines.append(pre + " ".join(words) + ("*" if pre == "*emph " else "](/i.png) tail" if pre == "![alt " else ""))
             lines.append("")
         elif r < 0.75:
             k = rng.choice(keys)
@@ -76,7 +76,7 @@ def instrumented(plugins, renderer):
         before = len(state.tokens)
         r = orig(m, state)
         tok = state.tokens[-1]
-        log.append((unikey(m.group("footnote_key")), tok))
+        log.append((unikey(m.group("footnote_key")), tok, bool(state.in_image)))
         return r
     md.inline._methods["footnote"] = wrapped
     return md, log
@@ -104,8 +104,10 @@ def correspondence(ctx, docs):
         sect = [t for t in toks if t["type"] == "footnotes"]
         sect_ids = set(id(t) for s_ in sect for t in walk(s_["children"]))
         # calls made while the footnote items are inline-parsed (fresh env, after the main pass) vs the main pass
-        main_calls = [(k, t) for k, t in log if id(t) not in sect_ids]
-        sect_calls = [(k, t) for k, t in log if id(t) in sect_ids]
+        # … and calls made inside an image description (rendered as plain alt text): the handler must leave them literal,
+        # they never reach the numbering machine
+        main_calls = [(k, t) for k, t, im in log if id(t) not in sect_ids and not im]
+        sect_calls = [(k, t) for k, t, im in log if id(t) in sect_ids or im]
         items = [(c["attrs"]["key"], c["attrs"]["index"]) for s_ in sect for c in s_["children"]]
         reqs.append(("fn", enc_list(defs), enc_list([k for k, _ in main_calls])))
         exps.append((doc, defs, main_calls, sect_calls, notes_final, items, len(sect)))
@@ -182,11 +184,56 @@ def html_oracle(ctx, docs):
     return n
 
 
+def block_order(ctx, n):
+    """Blocks that interrupt each other without blank lines (a list ends a quote, a heading / quote / rule / fence ends a list
+    item) are the same blocks as when written with blank lines between them: the notes must be numbered, and the blocks
+    emitted, in the same order."""
+    import mistune
+    md = mistune.create_markdown(renderer=None, plugins=["footnotes", "table", "strikethrough", "spoiler"])
+    cnt = 0
+    for _ in range(n):
+        k = ctx.rng.randint(2, 5)
+        blocks, kinds = [], []
+        prev = None
+        for i in range(k):
+            if prev in (None,):
+                kind = ctx.rng.choice(["quote", "list", "olist", "spoiler"])
+            elif prev in ("quote", "spoiler"):
+                kind = ctx.rng.choice(["list", "olist", "hr", "fence"])     # (an HTML block does not end a quote in mistune: not a C14 matter)
+            elif prev in ("list", "olist"):
+                kind = ctx.rng.choice(["quote", "heading", "hr", "fence", "spoiler"])
+            else:
+                break
+            key = "k%d" % i
+            body = {"quote": "> q%d [^%s]" % (i, key), "spoiler": ">! s%d [^%s]" % (i, key), "list": "- item%d [^%s]" % (i, key), "olist": "1. item%d [^%s]" % (i, key),
+                    "heading": "# h%d [^%s]" % (i, key), "hr": "***", "fence": "```\ncode%d\n```" % i, "html": "<div>\nraw%d\n</div>" % i}[kind]
+            blocks.append(body); kinds.append(kind); prev = kind
+        defs = "".join("\n[^k%d]: note %d\n" % (i, i) for i in range(len(blocks)))
+        loose = "\n\n".join(blocks) + "\n" + defs
+        tight = "\n".join(blocks) + "\n" + defs
+        try:
+            ta, tb = md(loose), md(tight)
+        except Exception:
+            continue
+        cnt += 1
+        def shape(toks):
+            return [t["type"] for t in toks if t["type"] not in ("blank_line", "footnotes")]
+        def note_keys(toks):
+            return [c["attrs"]["key"] for t in toks if t["type"] == "footnotes" for c in t["children"]]
+        if shape(ta) != shape(tb):
+            ctx.fail("block-order", "blocks written without blank lines come out in another order than with blank lines: %r vs %r for %r" % (shape(tb), shape(ta), tight), {"doc": tight, "variant": "block-order"})
+        elif note_keys(ta) != note_keys(tb):
+            ctx.fail("not-first-reference-order:blocks", "notes are numbered in the order %r for %r but %r when the same blocks are separated by blank lines" % (note_keys(tb), tight, note_keys(ta)),
+                     {"doc": tight, "variant": "block-order"})
+    return cnt
+
+
 def run(ctx):
     ctx.broken += common.proof_stage(ctx, THEOREMS)
     docs = [fn_doc(ctx.rng) for _ in range(1500 if ctx.quick() else 15000)]
     n1 = correspondence(ctx, docs)
     n2 = html_oracle(ctx, docs)
+    n2 += block_order(ctx, 400 if ctx.quick() else 6000)
     if ctx.broken and not ctx.failures:
         ctx.notes.append("search mode entered")
         n2 += html_oracle(ctx, [fn_doc(ctx.rng) for _ in range(20000)])
